@@ -256,6 +256,7 @@ class _Tokenizer:
                 f"unexpected type of the object to parse: {str(type(text))}")
 
         cur_span_symbol = None
+        cur_span_start_pos = None
         cur_span_start_text = None
         cur_span_lines = None
         span_body_matcher = None
@@ -283,10 +284,11 @@ class _Tokenizer:
                         yield _Token(
                             token_name,
                             value,
-                            prev_end_pos, new_end_pos,
+                            cur_span_start_pos, new_end_pos,
                         )
                         prev_end_pos = new_end_pos
                         cur_span_symbol = None
+                        cur_span_start_pos = None
                         cur_span_start_text = None
                         cur_span_lines = None
                         span_body_matcher = None
@@ -304,6 +306,9 @@ class _Tokenizer:
                         # we found start of the 'span' token. Something
                         # like opening of a comment '/*'.
                         cur_span_symbol = token_name
+                        cur_span_start_pos = (
+                            prev_end_pos if prev_end_pos.coords == (line_id, col + 1)
+                            else SrcPos(src_name, line_id, col + 1))
                         cur_span_start_text = text_line
                         cur_span_lines = []
                     else:
@@ -313,10 +318,15 @@ class _Tokenizer:
                             # this token is not a word, but keyword
                             token_name = keyword_token
                         new_end_pos = SrcPos(src_name, line_id, match.end() + 1)
+                        # token starts at the position of its own match (it is
+                        # the end of previous token unless a new line has started)
                         yield _Token(
                             token_name,
                             value,
-                            prev_end_pos, new_end_pos,
+                            (prev_end_pos
+                             if prev_end_pos.coords == (line_id, col + 1)
+                             else SrcPos(src_name, line_id, col + 1)),
+                            new_end_pos,
                         )
                         prev_end_pos = new_end_pos
                     col = match.end()
